@@ -214,6 +214,32 @@ func scenarios() []*caseSpec {
 		mk("accepted queries are free", rep(qQuery(A, kE), 4), rep(qSign(B, kE), eff-1), rep(qQuery(A, kC), 3), good)
 		mk("mixed failures kinds", []reqSpec{qSign(B, kC)}, rep(qKbd(A, "B"), eff-1), good, good)
 		mk("none late", rep(qPW(A, "pwB"), eff-1), []reqSpec{qNone(A)}, good, good)
+		if eff >= 2 {
+			// failures before and after a partial success add up
+			for _, below := range []bool{false, true} {
+				c := baseSpec(fmt.Sprintf("D max=%d failures around a partial success, below limit=%v", max, below))
+				c.maxAuthTries = max
+				c.set(0, "kbd", A, "A", part(1))
+				c.set(1, "pw", A, "pwA", accEmpty)
+				n := eff - 1
+				if below {
+					n = eff - 2
+				}
+				c.hist = append(c.hist, rep(qPW(A, "pwB"), n)...)
+				c.hist = append(c.hist, qKbd(A, "A"), qPW(A, "pwB"), qPW(A, "pwA"), qPW(A, "pwA"))
+				add(c)
+			}
+		}
+		// a rejecting callback that also returns Permissions: they must not surface later
+		{
+			c := baseSpec(fmt.Sprintf("D max=%d rejected attempt returned permissions, then none succeeds", max))
+			c.maxAuthTries = max
+			c.noClientAuth = true
+			c.set(0, "pw", A, "pwB", outcome{kind: oReject, perm: permSpec{kind: pOther}})
+			if eff >= 2 {
+				add(c.h(qPW(A, "pwB"), qNone(A)))
+			}
+		}
 		c := baseSpec(fmt.Sprintf("D max=%d partial successes are free", max))
 		c.maxAuthTries = max
 		c.set(0, "pw", A, "pwA", part(1))
